@@ -11,6 +11,11 @@ pub open spec fn method_is_http11(m: Method) -> bool {
     m == Method::PUT || m == Method::DELETE || m == Method::CONNECT || m == Method::OPTIONS || m == Method::TRACE || m == Method::PATCH
 }
 pub open spec fn method_needs_body(m: Method) -> bool { m == Method::POST || m == Method::PUT || m == Method::PATCH }
+/// agreement of a result with its specification where no property names the error VARIANT: the same Ok value, or some
+/// error - which one is the code's business - that is not the output-overflow signal of the head writer
+pub open spec fn res_agree<T>(r: Result<T, Error>, spec: Result<T, Error>) -> bool {
+    match spec { Ok(v) => r == Ok::<T, Error>(v), Err(_) => r is Err && !(r->Err_0 == Error::OutputOverflow) }
+}
 /// C17: the version / method check, as a function of its arguments
 pub open spec fn spec_verify_version(m: Method, v: Version) -> Result<(), Error> {
     if v != Version::HTTP_10 && v != Version::HTTP_11 { Err(Error::UnsupportedVersion) }
@@ -23,7 +28,7 @@ IMPL('impl MethodExt for Method')
 FN('is_http10', props=['C17'], ret='r', ensures=[('aux.is_http10', 'r == method_is_http10(*self)')])
 FN('is_http11', props=['C17'], ret='r', ensures=[('aux.is_http11', 'r == method_is_http11(*self)')])
 FN('need_request_body', props=['C17', 'C09', 'C15'], ret='r', ensures=[('C17.need_request_body', 'r == method_needs_body(*self)')])
-FN('verify_version', props=['C17'], ret='r', ensures=[('C17.version_and_method', 'r == spec_verify_version(*self, v)')])
+FN('verify_version', props=['C17'], ret='r', ensures=[('C17.version_and_method', 'res_agree(r, spec_verify_version(*self, v))')])
 END()
 ITEM('trait StatusExt')
 IMPL('impl StatusExt for StatusCode')
